@@ -3,6 +3,7 @@ package main
 // ssah.go: generic helpers over go/ssa used by the engines.
 
 import (
+	"fmt"
 	"go/constant"
 	"go/token"
 	"go/types"
@@ -200,6 +201,71 @@ func reachEnv(start []*ssa.BasicBlock, cut map[edge]bool, onState func(b *ssa.Ba
 			}
 		}
 	}
+	// repeated tests: comparisons that occur more than once over the same SSA operands (`if err != nil && ... ;
+	// if err != nil`) share one slot of the environment, filled in when a branch on one of them is taken and
+	// cleared whenever the walk enters a block that defines one of the operands (the operands then have new values)
+	type cmpKey struct {
+		op   token.Token
+		x, y string
+	}
+	opKey := func(v ssa.Value) string {
+		if c, ok := v.(*ssa.Const); ok {
+			return "const:" + c.String() // every use of a constant is an ssa.Const of its own
+		}
+		return fmt.Sprintf("%p", v)
+	}
+	type cmpRef struct {
+		slot int
+		neg  bool
+	}
+	cmpOf := map[*ssa.BinOp]cmpRef{}
+	nSlots := len(bphis)
+	clearAt := map[*ssa.BasicBlock][]int{}
+	{
+		groups := map[cmpKey][]*ssa.BinOp{}
+		negs := map[*ssa.BinOp]bool{}
+		for _, b := range fn.Blocks {
+			for _, in := range b.Instrs {
+				bo, ok := in.(*ssa.BinOp)
+				if !ok {
+					continue
+				}
+				k := cmpKey{bo.Op, opKey(bo.X), opKey(bo.Y)}
+				switch bo.Op {
+				case token.EQL, token.NEQ:
+					k.op = token.EQL
+					if k.x > k.y {
+						k.x, k.y = k.y, k.x
+					}
+					negs[bo] = bo.Op == token.NEQ
+				case token.LSS, token.LEQ, token.GTR, token.GEQ:
+				default:
+					continue
+				}
+				if _, isC := bo.X.(*ssa.Const); isC {
+					if _, isC2 := bo.Y.(*ssa.Const); isC2 {
+						continue
+					}
+				}
+				groups[k] = append(groups[k], bo)
+			}
+		}
+		for _, g := range groups {
+			if len(g) < 2 {
+				continue
+			}
+			slot := nSlots
+			nSlots++
+			for _, bo := range g {
+				cmpOf[bo] = cmpRef{slot, negs[bo]}
+			}
+			for _, o := range []ssa.Value{g[0].X, g[0].Y} {
+				if in, ok := o.(ssa.Instruction); ok && in.Block() != nil {
+					clearAt[in.Block()] = append(clearAt[in.Block()], slot)
+				}
+			}
+		}
+	}
 	// value of a boolean under an environment: 0 false, 1 true, -1 unknown
 	var val func(v ssa.Value, env []int8) int8
 	val = func(v ssa.Value, env []int8) int8 {
@@ -223,6 +289,13 @@ func reachEnv(start []*ssa.BasicBlock, cut map[edge]bool, onState func(b *ssa.Ba
 					return env[i]
 				}
 				return -1
+			}
+		case *ssa.BinOp:
+			if r, ok := cmpOf[x]; ok && env[r.slot] >= 0 {
+				if r.neg {
+					return 1 - env[r.slot]
+				}
+				return env[r.slot]
 			}
 		}
 		if condEval != nil {
@@ -266,7 +339,7 @@ func reachEnv(start []*ssa.BasicBlock, cut map[edge]bool, onState func(b *ssa.Ba
 		seen[b] = true
 		stack = append(stack, item{b, env})
 	}
-	unknown := make([]int8, len(bphis))
+	unknown := make([]int8, nSlots)
 	for i := range unknown {
 		unknown[i] = -1
 	}
@@ -292,6 +365,9 @@ func reachEnv(start []*ssa.BasicBlock, cut map[edge]bool, onState func(b *ssa.Ba
 						c = u.X
 					}
 					_, decide = c.(*ssa.Phi)
+					if bo, isBo := c.(*ssa.BinOp); isBo {
+						_, decide = cmpOf[bo]
+					}
 				}
 				if decide {
 					if r := val(ifi.Cond, it.env); r == 1 {
@@ -308,6 +384,43 @@ func reachEnv(start []*ssa.BasicBlock, cut map[edge]bool, onState func(b *ssa.Ba
 			}
 			// the boolean phis of s take the values flowing in over this edge (all read in the old environment)
 			env := it.env
+			copied := false
+			set := func(k int, nv int8) {
+				if nv != env[k] {
+					if !copied {
+						env = append([]int8(nil), it.env...)
+						copied = true
+					}
+					env[k] = nv
+				}
+			}
+			// a branch on a repeated comparison fixes its value along this edge
+			if len(b.Succs) == 2 {
+				if ifi, ok := b.Instrs[len(b.Instrs)-1].(*ssa.If); ok {
+					c := ifi.Cond
+					neg := false
+					for {
+						u, isU := c.(*ssa.UnOp)
+						if !isU || u.Op != token.NOT {
+							break
+						}
+						c, neg = u.X, !neg
+					}
+					if bo, isBo := c.(*ssa.BinOp); isBo {
+						if r, ok := cmpOf[bo]; ok && b.Succs[0] != b.Succs[1] {
+							truth := i == 0
+							if neg != r.neg {
+								truth = !truth
+							}
+							if truth {
+								set(r.slot, 1)
+							} else {
+								set(r.slot, 0)
+							}
+						}
+					}
+				}
+			}
 			var pi = -1
 			for j, p := range s.Preds {
 				if p == b {
@@ -315,7 +428,6 @@ func reachEnv(start []*ssa.BasicBlock, cut map[edge]bool, onState func(b *ssa.Ba
 					break
 				}
 			}
-			copied := false
 			for _, in := range s.Instrs {
 				ph, ok := in.(*ssa.Phi)
 				if !ok {
@@ -329,13 +441,11 @@ func reachEnv(start []*ssa.BasicBlock, cut map[edge]bool, onState func(b *ssa.Ba
 				if pi >= 0 && pi < len(ph.Edges) {
 					nv = val(ph.Edges[pi], it.env)
 				}
-				if nv != env[k] {
-					if !copied {
-						env = append([]int8(nil), it.env...)
-						copied = true
-					}
-					env[k] = nv
-				}
+				set(k, nv)
+			}
+			// entering s redefines the operands defined there
+			for _, k := range clearAt[s] {
+				set(k, -1)
 			}
 			push(s, env)
 		}
